@@ -209,6 +209,18 @@ Theorem C13_reference_merge :
 Proof. exact merge_ref. Qed.
 Print Assumptions C13_reference_merge.
 
+(* "+" of independently built histograms: same bins as merge, hence the reference run too *)
+Theorem C13_reference_add :
+  forall (fadd fsub fmul fdiv : Q -> Q -> Q) (fofZ : Z -> Q) (ftrunc : Q -> Z),
+  (forall a b, fadd a b = fadd b a) ->
+  forall (s1 s2 : @st Q),
+  Inv s1 -> cache_exact fadd fsub fmul fdiv fofZ ftrunc s1 -> Inv s2 -> bins s2 <> [] ->
+  uniq_trace fadd fsub fmul fdiv fofZ ftrunc (cap s1) (bins s1) (bins s2) ->
+  exists s', hadd (AA fadd fsub fmul fdiv fofZ ftrunc) s1 s2 = Some s' /\ Inv s' /\
+             ref_feed (AA fadd fsub fmul fdiv fofZ ftrunc) (cap s1) (bins s1) (bins s2) = Some (bins s').
+Proof. exact hadd_ref. Qed.
+Print Assumptions C13_reference_add.
+
 (* the exact-arithmetic instance *)
 Theorem C13_reference_history_exact :
   forall (cap0 : nat) (l : list (Q * Z)),
